@@ -1,4 +1,5 @@
 """C18 — device parameters map to materials exactly as documented."""
+import numpy as np
 from lib import core
 from lib.core import qlit, zlit, lst, frac
 
@@ -65,8 +66,30 @@ def gen_case(rng, i):
             "hist": [[rng.randint(0, 10**6) for _ in devs] for _ in range(nh)]}
 
 
+def t9(rng):
+    """full permittivity tensor, NOT symmetric (row-major 9-list), well conditioned"""
+    a, b, c = rng.choice(EPS) + 1, rng.choice(EPS) + 1, rng.choice(EPS) + 1
+    return [a, 0.5, 0.125, 0.25, b, 0.25, 0.0, 0.375, c]
+
+
+def gen_case9(rng, i):
+    """9-component tier: predicate only (numpy 3x3 inverses); the Coq instance executes the 1- and 3-component tiers"""
+    c = gen_case(rng, i)
+    for d in c["devices"]:
+        d["mats"] = sorted([t9(rng) for _ in d["mats"]], key=lambda m: m[0])
+        firsts = set()
+        for m in d["mats"]:          # distinct leading entries keep the material order unambiguous
+            while m[0] in firsts:
+                m[0] += 1.0
+            firsts.add(m[0])
+    c["vol_eps"] = t9(rng)
+    if c["bg"]:
+        c["bg"]["eps"] = t9(rng)
+    return c
+
+
 def gen_cases(ctx):
-    return [gen_case(ctx.rng, i) for i in range(ctx.pick(8, 60))]
+    return [gen_case(ctx.rng, i) for i in range(ctx.pick(8, 60))] + [gen_case9(ctx.rng, i) for i in range(ctx.pick(3, 12))]
 
 
 def run_cases(ctx, cases):
@@ -74,8 +97,18 @@ def run_cases(ctx, cases):
 
 
 # ----------------------------------------------------------------------------- helpers shared by model text and predicate
+def as9(m):
+    if not isinstance(m, list):
+        return [m, 0.0, 0.0, 0.0, m, 0.0, 0.0, 0.0, m]
+    if len(m) == 3:
+        return [m[0], 0.0, 0.0, 0.0, m[1], 0.0, 0.0, 0.0, m[2]]
+    return list(m)
+
+
 def ordered_mats(dev, ncomp):
     ms = sorted(dev["mats"], key=first)
+    if ncomp == 9:
+        return [as9(m) for m in ms]
     return [(m if isinstance(m, list) else [m] * ncomp)[:ncomp] if ncomp > 1 else [first(m)] for m in ms]
 
 
@@ -113,6 +146,8 @@ def coq_model(case, out):
 def coq_expr(case, out):
     if "error" in out:
         return "false"
+    if out["ncomp"] == 9:
+        return None
     fin = lst([lst(flat(comp), qlit) for comp in out["final"]])
     return f"qlist2_close (q 1 1000000000) {coq_model(case, out)} {fin}"
 
@@ -136,6 +171,18 @@ def expected(case, out):
                 for z in range(b[2][0], b[2][1]):
                     v = F(p[(x - b[0][0]) // vx][(y - b[1][0]) // vy][(z - b[2][0]) // vz])
                     inside[x][y][z] = True
+                    if nc == 9:
+                        M = lambda t: np.asarray(t, dtype=np.float64).reshape(3, 3)
+                        if d["kind"] == "cont":
+                            r = np.linalg.inv(M(ms[0]) + v * (M(ms[1]) - M(ms[0])))
+                        elif d["kind"] == "etch":
+                            bgp = np.linalg.inv(M([cur[k][x][y][z] for k in range(9)]))
+                            r = np.linalg.inv(bgp + v * (M(ms[0]) - bgp))
+                        else:
+                            r = np.linalg.inv(M(ms[int(v)]))
+                        for k in range(9):
+                            cur[k][x][y][z] = float(r.reshape(-1)[k])
+                        continue
                     for k in range(nc):
                         if d["kind"] == "cont":
                             e0, e1 = ms[0][k], ms[1][k]
@@ -174,7 +221,7 @@ def predicate(case, out):
                         return ("history-" + key, f"cell {(x, y, z)} comp {k}: after the history {g} != after only the last set {F(out['last'][k][x][y][z])}")
     # range of continuous (non-etched) devices written last
     for d, b in zip(devs_of(case, out), out["boxes"]):
-        if d["kind"] != "cont" or len(case["devices"]) > 1:
+        if d["kind"] != "cont" or len(case["devices"]) > 1 or nc == 9:
             continue
         ms = ordered_mats(d, nc)
         for k in range(nc):
